@@ -38,6 +38,7 @@ type Plan struct {
 	TracePath  string    `json:"trace"`
 	ResultPath string    `json:"result"`
 	MaxOps     int       `json:"max_ops"`
+	Chunks     []int     `json:"chunks"`
 }
 
 type Result struct {
